@@ -113,6 +113,11 @@ type c09Unit struct {
 	hasSyn bool
 	res    run.GoccResult
 	pkgDir string // directory (relative to the module) that holds the generated packages
+	// regeneration: an earlier gocc run (other grammar, other flags) has already written into the
+	// same output directory
+	preText  string
+	preFlags []string
+	preExit  int
 }
 
 var flagPool = []string{"-a", "-zip", "-no_lexer", "-debug_lexer", "-debug_parser", "-v", "-u"}
@@ -136,9 +141,18 @@ func hasFlag(fl []string, f string) bool {
 	return false
 }
 
+// strs is what a witness keeps of the unit besides text and flags.
+func (u *c09Unit) strs() []string {
+	s := []string{u.kind, u.opts.OutSub, u.opts.WorkSub}
+	if u.preText != "" {
+		s = append(s, u.preText, strings.Join(u.preFlags, " "))
+	}
+	return s
+}
+
 func runC09(c *Ctx) error {
 	n := c.Pick(150, 2500)
-	c.Rule = "real gocc runs under a step budget on every instrumented loop and a CPU rlimit: (a) well-formed grammars with hostile spellings (string literals with % $ quotes back-quotes backslashes comment markers template braces newlines non-ASCII; unicode token and production names; action text with back-quotes > $), (b) byte- and token-level mutants of well-formed grammars, (c) random flag combinations incl. -o sub/dir, -o ./x/, absolute -o, and -p with the correct path, (d) deeply nested nullable repetitions/options; termination = no budget/CPU kill; every run that exits 0 must have written token+util, lexer unless -no_lexer, parser+errors iff there is a syntax part, all non-empty, and everything that exited 0 is compiled in one batch go build (e: strace fault injection on the N-th write/openat/mkdirat); one evaluation = one gocc run; non-trivial = run that exited 0 and was compiled, or mutant run; distinct by (text, flags)"
+	c.Rule = "real gocc runs under a step budget on every instrumented loop and a CPU rlimit: (a) well-formed grammars with hostile spellings (string literals with % $ quotes back-quotes backslashes comment markers template braces newlines non-ASCII; unicode token and production names; action text with back-quotes > $), (b) byte- and token-level mutants of well-formed grammars, (c) random flag combinations incl. -o sub/dir, -o ./x/, absolute -o, and -p with the correct path, (d) deeply nested nullable repetitions/options; termination = no budget/CPU kill; every run that exits 0 must have written token+util, lexer unless -no_lexer, parser+errors iff there is a syntax part, all non-empty, and everything that exited 0 is compiled in one batch go build (e: strace fault injection on the N-th write/openat/mkdirat), (f) regeneration into an output directory that already holds an earlier generation made with the debug flags / from another grammar; one evaluation = one gocc run; non-trivial = run that exited 0 and was compiled, or mutant run; distinct by (text, flags)"
 	c.Assumptions = []string{"termination is judged as bounded progress on size-bounded inputs: no instrumented loop may exceed the step budget, no run may exceed 120 s of CPU; a wall-clock watchdog alone is inconclusive", "harness headers and actions are valid Go by construction, mutants carry no action text, so a compile error is gocc's"}
 	if err := c.W.WriteSupport(); err != nil {
 		return err
@@ -153,7 +167,26 @@ func runC09(c *Ctx) error {
 		return u
 	}
 	for len(units) < n {
-		switch k := r.Intn(11); {
+		switch k := r.Intn(12); {
+		case k == 11: // (f) regeneration into a directory that holds an earlier, larger generation
+			pre := richGrammar(r)
+			g := richGrammar(r)
+			if r.Intn(2) == 0 {
+				g = pre // the same grammar, first with the debug flags, then without
+			}
+			if len(pre.NTs) == 0 || len(g.NTs) == 0 {
+				continue
+			}
+			u := add("regen", g, "", []string{"-a"})
+			u.hasSyn = true
+			u.preText = pre.Render(nil)
+			u.preFlags = []string{"-a", "-debug_lexer", "-debug_parser"}
+			if r.Intn(2) == 0 {
+				u.preFlags = append(u.preFlags, "-v")
+			}
+			if r.Intn(3) == 0 {
+				u.flags = append(u.flags, "-zip")
+			}
 		case k == 10: // (b') a well-formed file cut off at an arbitrary byte, preferably inside a token
 			g := richGrammar(r)
 			if r.Intn(2) == 0 {
@@ -255,6 +288,10 @@ func runC09(c *Ctx) error {
 	run.Parallel(len(units), func(i int) {
 		u := units[i]
 		o := u.opts
+		if u.preText != "" {
+			o.Flags = u.preFlags
+			u.preExit = c.W.RunGocc(u.name, []byte(u.preText), o).Exit
+		}
 		o.Flags = u.flags
 		u.res = c.W.RunGocc(u.name, []byte(u.text), o)
 	})
@@ -263,7 +300,7 @@ func runC09(c *Ctx) error {
 	for i, u := range units {
 		c.Eval(1)
 		c.Add("runs_"+u.kind, 1)
-		w := &Witness{Kind: "c09", Text: u.text, Flags: u.flags, Strs: []string{u.kind, u.opts.OutSub, u.opts.WorkSub}}
+		w := &Witness{Kind: "c09", Text: u.text, Flags: u.flags, Strs: u.strs()}
 		if i%257 == 0 {
 			c.Sample(map[string]interface{}{"kind": u.kind, "text": trunc(u.text, 800), "flags": u.flags, "exit": u.res.Exit, "stdout": trunc(u.res.Stdout, 200)})
 		}
@@ -291,7 +328,7 @@ func runC09(c *Ctx) error {
 			if u.opts.WorkSub != "" {
 				os.RemoveAll(filepath.Join(c.W.Dir, u.opts.WorkSub))
 			}
-			if u.kind == "hostile" || u.kind == "nullable" {
+			if u.kind == "hostile" || u.kind == "nullable" || u.kind == "regen" {
 				// a well-formed grammar must not be refused because of how it is spelled
 				if !(hasFlag(u.flags, "-no_lexer") && hasFlag(u.flags, "-debug_lexer")) {
 					w.Note = fmt.Sprintf("gocc exits %d on a well-formed grammar: %s", u.res.Exit, trunc(u.res.Stdout+u.res.Stderr, 300))
@@ -356,7 +393,7 @@ func runC09(c *Ctx) error {
 		bad := compileAll(c, compiled)
 		for _, u := range compiled {
 			if why, ok := bad[u.pkgDir]; ok {
-				c.Violation(&Witness{Kind: "c09", Text: u.text, Flags: u.flags, Strs: []string{u.kind, u.opts.OutSub, u.opts.WorkSub},
+				c.Violation(&Witness{Kind: "c09", Text: u.text, Flags: u.flags, Strs: u.strs(),
 					Note: "gocc exits 0 but the generated packages do not compile: " + trunc(why, 500)})
 			}
 		}
@@ -484,7 +521,7 @@ func replayC09(c *Ctx, w *Witness) error {
 		return nil
 	}
 	u := &c09Unit{name: "g_replay_" + w.Key()[:8], text: w.SourceText(), flags: w.Flags, kind: "replay"}
-	if len(w.Strs) == 3 {
+	if len(w.Strs) >= 3 {
 		u.kind = w.Strs[0]
 		u.opts.OutSub, u.opts.WorkSub = w.Strs[1], w.Strs[2]
 		if u.opts.WorkSub != "" {
@@ -492,6 +529,10 @@ func replayC09(c *Ctx, w *Witness) error {
 		}
 	}
 	o := u.opts
+	if len(w.Strs) == 5 {
+		o.Flags = strings.Fields(w.Strs[4])
+		c.W.RunGocc(u.name, []byte(w.Strs[3]), o)
+	}
 	o.Flags = u.flags
 	u.res = c.W.RunGocc(u.name, []byte(u.text), o)
 	wit := &Witness{Kind: "c09", Text: w.SourceText(), Flags: w.Flags, Strs: w.Strs}
